@@ -220,3 +220,204 @@ pub fn vx_roundtrip_term(f: &NarseseFormat, term: &Term) -> (r: ParseResult<Term
     }
     f.parse_term(&s)
 }
+
+// ------------------------------------------------------------------------------------------
+// C02, sentence / task level
+// ------------------------------------------------------------------------------------------
+/// the strings of a lexical value (see RtV)
+pub open spec fn rtv_of(n: Narsese) -> RtV {
+    match n {
+        NarseseValue::Term(t) => RtV { has_budget: false, budget: Seq::empty(), term: t, punct: Seq::empty(), stamp: Seq::empty(), truth: Seq::empty() },
+        NarseseValue::Sentence(s) => RtV { has_budget: false, budget: Seq::empty(), term: s.term, punct: s.punctuation@, stamp: s.stamp@, truth: str_views(s.truth@) },
+        NarseseValue::Task(t) => RtV { has_budget: true, budget: str_views(t.budget@), term: t.sentence.term, punct: t.sentence.punctuation@,
+            stamp: t.sentence.stamp@, truth: str_views(t.sentence.truth@) },
+    }
+}
+/// in addition to format_no_space: truth / budget brackets and separators carry no space character,
+/// the inter-item space consists of space characters
+pub open spec fn format_no_space2(f: &NarseseFormat) -> bool {
+    &&& format_no_space(f)
+    &&& no_space(f, f.sentence.truth_brackets.0@) && no_space(f, f.sentence.truth_brackets.1@) && no_space(f, f.sentence.truth_separator@)
+    &&& no_space(f, f.task.budget_brackets.0@) && no_space(f, f.task.budget_brackets.1@) && no_space(f, f.task.budget_separator@)
+    &&& all_space(f, f.space.format_items@)
+}
+pub open spec fn entries_no_space(f: &NarseseFormat, es: Seq<Seq<char>>) -> bool { forall|k: int| 0 <= k < es.len() ==> no_space(f, #[trigger] es[k]) }
+pub open spec fn value_no_space(f: &NarseseFormat, v: RtV) -> bool {
+    term_no_space(f, v.term) && no_space(f, v.punct) && no_space(f, v.stamp) && entries_no_space(f, v.budget) && entries_no_space(f, v.truth)
+}
+pub proof fn lemma_join_l_snoc(es: Seq<Seq<char>>, sep: Seq<char>)
+    requires es.len() >= 2
+    ensures join_l(es, sep) == join_l(es.drop_last(), sep) + sep + es.last()
+    decreases es.len()
+{
+    let rest = es.drop_first();
+    if es.len() == 2 {
+        assert(rest.len() == 1);
+        assert(join_l(rest, sep) == rest[0]);
+        assert(es.drop_last().len() == 1);
+        assert(join_l(es.drop_last(), sep) == es[0]);
+        assert(es[0] + (sep + rest[0]) =~= es[0] + sep + es.last());
+    } else {
+        lemma_join_l_snoc(rest, sep);
+        assert(rest.drop_last() =~= es.drop_last().drop_first());
+        assert(rest.last() == es.last());
+        assert(es.drop_last()[0] == es[0]);
+        let m = join_l(rest.drop_last(), sep);
+        assert(join_l(es.drop_last(), sep) == es[0] + (sep + m));
+        assert(es[0] + (sep + (m + sep + es.last())) =~= (es[0] + (sep + m)) + sep + es.last());
+    }
+}
+/// the formatter's `joined` over strings is join_l over their characters
+pub proof fn lemma_joined_is_join_l(strs: Seq<String>, sep: Seq<char>)
+    ensures joined(strs, sep) == join_l(str_views(strs), sep)
+    decreases strs.len()
+{
+    let es = str_views(strs);
+    if strs.len() == 0 {
+    } else if strs.len() == 1 {
+        assert(es[0] == strs[0]@);
+    } else {
+        lemma_joined_is_join_l(strs.drop_last(), sep);
+        assert(str_views(strs.drop_last()) =~= es.drop_last());
+        assert(es.last() == strs.last()@);
+        lemma_join_l_snoc(es, sep);
+    }
+}
+pub proof fn lemma_join_no_space(f: &NarseseFormat, es: Seq<Seq<char>>, sep: Seq<char>)
+    requires entries_no_space(f, es), no_space(f, sep)
+    ensures no_space(f, join_l(es, sep))
+    decreases es.len()
+{
+    if es.len() >= 2 {
+        let rest = es.drop_first();
+        assert forall|k: int| 0 <= k < rest.len() implies no_space(f, #[trigger] rest[k]) by { assert(rest[k] == es[k + 1]); }
+        lemma_join_no_space(f, rest, sep);
+        let jr = join_l(rest, sep);
+        let s = es[0] + (sep + jr);
+        assert forall|i: int| 0 <= i < s.len() implies !f.space.is_for_parse.spec_call(#[trigger] s[i]) by {
+            if i < es[0].len() { assert(s[i] == es[0][i]); }
+            else if i < es[0].len() + sep.len() { assert(s[i] == sep[i - es[0].len()]); }
+            else { assert(s[i] == jr[i - es[0].len() - sep.len()]); }
+        }
+    }
+}
+/// a bracketed list carries no space character
+pub proof fn lemma_shape_list(f: &NarseseFormat, l: Seq<char>, strs: Seq<String>, sep: Seq<char>, r: Seq<char>)
+    requires no_space(f, l), no_space(f, r), no_space(f, sep), entries_no_space(f, str_views(strs))
+    ensures sp(f, l + joined(strs, sep) + r) == entries_text(str_views(strs), l, r, sep)
+{
+    lemma_joined_is_join_l(strs, sep);
+    let j = join_l(str_views(strs), sep);
+    lemma_join_no_space(f, str_views(strs), sep);
+    lemma_strip_concat(f, l + j, r); lemma_strip_concat(f, l, j);
+    lemma_strip_none(f, l); lemma_strip_none(f, r); lemma_strip_none(f, j);
+    assert((l + j) + r =~= l + (j + r));
+}
+pub proof fn lemma_shape_sentence(f: &NarseseFormat, t: Seq<char>, p: Seq<char>, s: Seq<char>, spi: Seq<char>, tt: Seq<char>)
+    requires no_space(f, p), no_space(f, s), all_space(f, spi)
+    ensures sp(f, sentence_layout(t, p, s, tt, spi)) == ((sp(f, t) + p) + s) + sp(f, tt)
+{
+    let xs = if s.len() == 0 { s } else { spi + s };
+    let ys = if tt.len() == 0 { tt } else { spi + tt };
+    lemma_strip_concat(f, t + p + xs, ys);
+    lemma_strip_concat(f, t + p, xs);
+    lemma_strip_concat(f, t, p);
+    lemma_strip_none(f, p); lemma_strip_none(f, s); lemma_strip_all(f, spi);
+    lemma_strip_concat(f, spi, s);
+    lemma_strip_concat(f, spi, tt);
+    assert(sp(f, xs) =~= s);
+    assert(sp(f, ys) =~= sp(f, tt));
+}
+pub proof fn lemma_shape_task(f: &NarseseFormat, bt: Seq<char>, spi: Seq<char>, st: Seq<char>)
+    requires all_space(f, spi)
+    ensures sp(f, bt + (spi + st)) == sp(f, bt) + sp(f, st)
+{
+    lemma_strip_concat(f, bt, spi + st);
+    lemma_strip_concat(f, spi, st);
+    lemma_strip_all(f, spi);
+    assert(Seq::<char>::empty() + sp(f, st) =~= sp(f, st));
+}
+pub proof fn lemma_strip_len(f: &NarseseFormat, s: Seq<char>)
+    ensures sp(f, s).len() <= s.len()
+    decreases s.len()
+{
+    if s.len() > 0 { lemma_strip_len(f, s.drop_last()); }
+}
+/// strip(sentence_text) is term, punctuation, stamp, truth - the parser-side text of the sentence
+pub proof fn lemma_sentence_stripped(f: &NarseseFormat, s: Sentence)
+    requires format_no_space2(f), value_no_space(f, rtv_of(NarseseValue::Sentence(s))),
+        s.truth@.len() > 0 ==> f.sentence.truth_brackets.0@.len() >= 1,
+    ensures ({ let v = rtv_of(NarseseValue::Sentence(s));
+        sp(f, sentence_text(f, s)) == ((rt_t(f, v) + v.punct) + v.stamp) + rt_tr(f, v) }),
+{
+    reveal(rt_t);
+    let v = rtv_of(NarseseValue::Sentence(s));
+    let tt = truth_text(f, s.truth);
+    lemma_shape_sentence(f, lex_text(f, s.term), s.punctuation@, s.stamp@, f.space.format_items@, tt);
+    lemma_layout_stripped(f, s.term, Seq::<char>::empty());
+    assert(sp(f, lex_text(f, s.term)) + Seq::<char>::empty() =~= sp(f, lex_text(f, s.term)));
+    if s.truth@.len() == 0 {
+        assert(sp(f, tt) =~= Seq::<char>::empty());
+        assert(str_views(s.truth@).len() == 0);
+    } else {
+        lemma_shape_list(f, f.sentence.truth_brackets.0@, s.truth@, f.sentence.truth_separator@, f.sentence.truth_brackets.1@);
+        assert(str_views(s.truth@).len() == s.truth@.len());
+    }
+}
+/// strip(narsese_text(n)) is the parser-side text of n
+pub proof fn lemma_value_stripped(f: &NarseseFormat, n: Narsese)
+    requires format_no_space2(f), value_no_space(f, rtv_of(n)),
+        rtv_of(n).truth.len() > 0 ==> f.sentence.truth_brackets.0@.len() >= 1,
+        rt_t(f, rtv_of(n)).len() > 0,
+    ensures sp(f, narsese_text(f, n)) == rt_env(f, rtv_of(n)),
+{
+    let v = rtv_of(n);
+    match n {
+        NarseseValue::Term(t) => {
+            reveal(rt_t);
+            lemma_layout_stripped(f, t, Seq::<char>::empty());
+            assert(sp(f, lex_text(f, t)) + Seq::<char>::empty() =~= sp(f, lex_text(f, t)));
+            assert(rt_env(f, v) =~= rt_t(f, v));
+        },
+        NarseseValue::Sentence(s) => {
+            assert(str_views(s.truth@).len() == s.truth@.len());
+            lemma_sentence_stripped(f, s);
+            assert(rt_env(f, v) =~= ((rt_t(f, v) + v.punct) + v.stamp) + rt_tr(f, v));
+        },
+        NarseseValue::Task(t) => {
+            let s = t.sentence;
+            let vs = rtv_of(NarseseValue::Sentence(s));
+            assert(str_views(s.truth@).len() == s.truth@.len());
+            assert(rt_t(f, vs) == rt_t(f, v)) by { reveal(rt_t); }
+            lemma_sentence_stripped(f, s);
+            let st = sentence_text(f, s);
+            lemma_strip_len(f, st);
+            assert(st.len() > 0);
+            lemma_shape_task(f, budget_text(f, t.budget), f.space.format_items@, st);
+            lemma_shape_list(f, f.task.budget_brackets.0@, t.budget@, f.task.budget_separator@, f.task.budget_brackets.1@);
+            assert(rt_env(f, v) =~= rt_b(f, v) + (((rt_t(f, v) + v.punct) + v.stamp) + rt_tr(f, v)));
+        },
+    }
+}
+
+/// C02 as an executable composition of the two real entry points, for terms, sentences and tasks
+pub fn vx_roundtrip_narsese(f: &NarseseFormat, n: &Narsese) -> (r: ParseResult<Narsese>)
+    requires
+        lex_format_wf(f),
+        // the three shipped formats strip the spaces before parsing (unit lexical_tables)
+        f.space.remove_spaces_before_parse,
+        format_no_space2(f), value_no_space(f, rtv_of(*n)),
+        // the property's vocabulary hypotheses (see rt_value / rt_term) and "a sentence has a punctuation"
+        rt_value(f, rtv_of(*n)), rt_kind_ok(rtv_of(*n)),
+    ensures r matches Ok(n2) && rt_narsese(n2, rtv_of(*n)), //~ C02
+{
+    let s = f.format_narsese(n);
+    proof {
+        let v = rtv_of(*n);
+        reveal(rt_value);
+        assert(v.truth.len() > 0 ==> f.sentence.truth_brackets.0@.len() >= 1);
+        lemma_value_stripped(f, *n);
+        assert(rt_vhyp(f, idealized(f, s@), v));
+    }
+    f.parse(&s)
+}
